@@ -283,7 +283,11 @@ pub fn filter_eq_f64(values: &[f64], threshold: f64, result: &mut [u64]) {
 
     let start = chunks * 4;
     for i in start..values.len() {
-        if (values[i] - threshold).abs() < f64::EPSILON {
+        // Exact comparison, like the SIMD lanes above and the row-level predicate:
+        // a tolerance here made the result depend on where a row falls in the
+        // 4-lane chunking (and missed equal infinities, whose difference is NaN).
+        #[allow(clippy::float_cmp)]
+        if values[i] == threshold {
             result[i / 64] |= 1u64 << (i % 64);
         }
     }
